@@ -66,7 +66,7 @@ class no_mode:
 class SymTensor(torch.Tensor):
     @staticmethod
     def __new__(cls, idx, dtype):
-        r = torch.Tensor._make_wrapper_subclass(cls, idx.shape, dtype=dtype, device="cpu", requires_grad=False)
+        r = torch.Tensor._make_wrapper_subclass(cls, idx.shape, strides=idx.stride(), dtype=dtype, device="cpu", requires_grad=False)
         r.idx = idx
         return r
 
@@ -1622,3 +1622,40 @@ def explore(harness, stats=None, max_paths=20000, time_limit=None, engine_cls=En
             raise HarnessError("path limit exceeded")
         if time_limit is not None and time.time() - t0 > time_limit:
             raise HarnessError("exploration time limit exceeded")
+
+
+def _op_nll_loss_forward(self, func, ov, x, target, weight, reduction, ignore_index):
+    """nll_loss on (rows, classes) input: out_i = -w[t_i] * x[i, t_i] (0 for ignored targets)"""
+    if x.dim() == 1:
+        rows = [x.vals()]
+        tv = target.vals()
+    else:
+        rows = x.nested()
+        tv = target.vals()
+    C = len(rows[0]) if rows else 0
+    wv = weight.vals() if weight is not None else [1.0] * C
+    outs, ws = [], []
+    for r, t in zip(rows, tv):
+        ign = s_cmp("eq", t, ignore_index)
+        self.oblige("nll_loss: target out of range", s_or(ign, s_and(s_cmp("ge", t, 0), s_cmp("lt", t, C))))
+        val, wsel = 0.0, 0.0
+        for k in range(C):
+            hit = s_cmp("eq", t, k)
+            val = s_ite(hit, s_neg(s_mul(wv[k], r[k])), val)
+            wsel = s_ite(hit, wv[k], wsel)
+        outs.append(s_ite(ign, 0.0, val))
+        ws.append(s_ite(ign, 0.0, wsel))
+    tw = 0.0
+    for w in ws:
+        tw = s_add(tw, w)
+    if reduction == 0:
+        return SymTensor.from_vals(outs, target.shape, x.dtype), SymTensor.from_vals([tw], (), x.dtype)
+    tot = 0.0
+    for o in outs:
+        tot = s_add(tot, o)
+    if reduction == 1:
+        tot = s_div(tot, tw)
+    return SymTensor.from_vals([tot], (), x.dtype), SymTensor.from_vals([tw], (), x.dtype)
+
+
+Engine.op_nll_loss_forward = _op_nll_loss_forward
